@@ -221,6 +221,7 @@ def delims_ok(vals):
 class C11:
     PROP = "C11"
     LEVEL = "exploration"
+    NO_PIN = True   # no baton threads here: let the OS scheduler place the workers
     RUN_S = 240
     RUNS_FORK_THEMSELVES = True
     TIERS = {
